@@ -835,6 +835,35 @@ CACHE_DECORATORS = {"lru_cache", "functools.lru_cache", "cache", "functools.cach
                     "memoize", "cachetools.cached"}
 
 
+def _class_attr_mutations(ctx: Ctx, m: Module, cn: str, an: str):
+    """Descriptions of the places (any module of the package) where the class-level object `cn.an` is changed in place,
+    directly, through an alias or through a helper."""
+    cnode = m.classes()[cn]
+    shadowed = any(isinstance(x, ast.Assign) and any(isinstance(t, ast.Attribute) and t.attr == an and dotted(t.value) == "self"
+                                                     for t in x.targets) for x in ast.walk(cnode))
+    muts = []
+    for m2 in ctx.src.own_modules():
+        for c2name, c2 in list(m2.classes().items()) + [(None, None)]:
+            fns = ([x for x in c2.body if isinstance(x, (ast.FunctionDef, ast.AsyncFunctionDef))] if c2 is not None
+                   else list(m2.functions().values()))
+            for f2 in fns:
+                inside = m2 is m and c2name == cn
+
+                def is_src(e, inside=inside):
+                    if not (isinstance(e, ast.Attribute) and e.attr == an):
+                        return False
+                    b = e.value
+                    d = dotted(b)
+                    if d is not None and d.split(".")[-1] == cn:
+                        return True
+                    if inside and (d == "cls" or d == "self.__class__" or (isinstance(b, ast.Call) and dotted(b.func) == "type")):
+                        return True
+                    return inside and d == "self" and not shadowed
+                for node, how in alias_mutations(m2, f2, is_src, resolve=resolver_for(m2, c2)):
+                    muts.append(f"{m2.rel}:{f2.name} {how}")
+    return muts
+
+
 def rule_no_shared_state(ctx: Ctx, rid="C17.NO-SHARED-WRITES", modules=None, only=None, floor=None, accumulating_only=False):
     """accumulating_only (C11): a shared object that the code itself empties before each use (x.clear(), x = [],
     x[:] = ...) does not carry anything from one compilation to the next when calls do not overlap; only objects
@@ -1351,6 +1380,13 @@ def _is_state_write(st, self_name, class_names, mm):
 def rule_commit_order(ctx: Ctx, rid="C11.COMMIT-ORDER", parse_only=False):
     """parse_only (C06): only the parse step counts as the thing that may fail - nothing may be
     recorded before the text has been parsed and the None result checked."""
+    from . import liferules as LF
+    kinds_ = ("atomic", "none") if not rid.startswith("C17") else ("atomic", "none", "ordered")
+    if LF.decide(ctx, rid, kinds_, only=(lambda con: "parse_source" in con) if parse_only else None,
+                 ok_text="every failure schedule of recompile (parse, generate, compile, exec; a None parse result) leaves the evaluator's "
+                         "attributes as they were" + ("; in the successful run every store follows the last step that can fail"
+                                                      if rid.startswith("C17") else "")):
+        return
     m, c = _evaluator(ctx)
     rec = m.get_method(c, "recompile")
     self_name = rec.args.args[0].arg
@@ -1432,6 +1468,11 @@ def rule_skip_guard(ctx: Ctx, rid="C11.SKIP-GUARD"):
     """The only way recompile() skips compiling is a comparison between the stored fingerprint and
     the fingerprint of the *whole argument text* (an injective function of it: the text itself
     or a cryptographic hash of its encoding)."""
+    from . import liferules as LF
+    if LF.decide(ctx, rid, ("exact", "recorded"), construct=f"{EV}:ExperimentEvaluator.recompile[skip]",
+                 ok_text="the skip decision compares an exact fingerprint of the whole text (the text or a full hashlib digest of its "
+                         "encoding); recompiling the accepted text again calls and stores nothing"):
+        return
     m, c = _evaluator(ctx)
     rec = m.get_method(c, "recompile")
     param = rec.args.args[1].arg
@@ -1526,6 +1567,10 @@ def rule_fingerprint_recorded(ctx: Ctx, rid="C11.FINGERPRINT-RECORDED"):
     """Every normally-ending path of recompile that switches the evaluator also records the
     fingerprint of the text it switched to (otherwise a later recompile of that text is skipped
     or not skipped against a stale fingerprint)."""
+    from . import liferules as LF
+    if LF.decide(ctx, rid, ("recorded", "switched"), ok_text="after any of the explored histories (A; A,B; A,B,A; A,B,A,B) the state a call "
+                 "reads equals that of a fresh evaluator of the last text, and recompiling that text again is a no-op"):
+        return
     m, c = _evaluator(ctx)
     rec = m.get_method(c, "recompile")
     # the attribute compared by the skip test
@@ -1572,8 +1617,27 @@ def rule_instance_only(ctx: Ctx, rid="C11.INSTANCE-ONLY"):
             v = st.value
             imm = isinstance(v, ast.Constant) or (isinstance(v, ast.Tuple) and all(isinstance(e, ast.Constant) for e in v.elts)) \
                 or (isinstance(v, ast.UnaryOp) and isinstance(v.operand, ast.Constant))
-            ctx.rep.check(imm, rid, f"{EV}:ExperimentEvaluator[{norm(st)[:50]}]",
-                          "class-level default is an immutable constant" if imm else
+            why = "class-level default is an immutable constant"
+            if not imm and isinstance(v, ast.Call) and (dotted(v.func) or "").split(".")[-1] in (
+                    "MappingProxyType", "frozenset", "tuple", "compile", "getLogger", "TypeVar", "namedtuple"):
+                imm, why = True, f"class-level {dotted(v.func)}(...) is a read-only object"
+            names = [t.id for t in (st.targets if isinstance(st, ast.Assign) else [st.target]) if isinstance(t, ast.Name)]
+            if not imm and isinstance(v, (ast.Dict, ast.List, ast.Set, ast.DictComp, ast.ListComp, ast.SetComp)) and names:
+                # a container is shared state only if something changes it in place
+                muts = _class_attr_mutations(ctx, m, c.name, names[0])
+                if not muts:
+                    imm, why = True, "class-level container is never changed in place (read-only table)"
+            if not imm and isinstance(v, ast.Call) and dotted(v.func):
+                m2_, cnode = ctx.src.resolve_name(m, dotted(v.func).split(".")[0])
+                if isinstance(cnode, ast.ClassDef):
+                    stateful = any(isinstance(f_, ast.FunctionDef) and (f_.name in ("__set__", "__set_name__", "__delete__") or (
+                        f_.name not in ("__init__", "__new__", "__post_init__") and any(
+                            isinstance(x, (ast.Assign, ast.AugAssign)) and any(isinstance(t, ast.Attribute) and dotted(t.value) == (
+                                f_.args.args[0].arg if f_.args.args else "self") for t in (x.targets if isinstance(x, ast.Assign) else [x.target]))
+                            for x in ast.walk(f_)))) for f_ in cnode.body)
+                    if not stateful:
+                        imm, why = True, f"class-level instance of {cnode.name}, which has no state-changing method"
+            ctx.rep.check(imm, rid, f"{EV}:ExperimentEvaluator[{norm(st)[:50]}]", why if imm else
                           "class-level attribute holds a mutable object: it is shared by all evaluators, so an operation on one "
                           "evaluator can change another", site=m.site(st), text=norm(st)[:100])
     for fn in [x for x in c.body if isinstance(x, ast.FunctionDef)]:
@@ -1593,7 +1657,7 @@ def rule_instance_only(ctx: Ctx, rid="C11.INSTANCE-ONLY"):
                 ctx.rep.check(ok, rid, f"{EV}:ExperimentEvaluator.{fn.name}[{norm(st)[:50]}]",
                               f"instance write to {a}" if ok else f"{k} write: state shared between evaluators ({a})",
                               site=m.site(st), text=norm(st)[:100])
-    ctx.rep.floor("evaluator attribute definitions and writes", n, 3)
+    ctx.rep.floor("evaluator attribute definitions and writes", n, 2)
 
 
 def _exec_site(ctx: Ctx, m, c, rec):
@@ -1645,11 +1709,32 @@ def rule_installed_function(ctx: Ctx, rid="C11.INSTALLED-FUNCTION", strict=True,
     allexec = [n for mod in ctx.src.own_modules() for n in ast.walk(mod.tree)
                if isinstance(n, ast.Call) and dotted(n.func) in ("exec", "eval", "__import__", "importlib.import_module")]
     if "exec-sites" in facets:
-        ctx.rep.check(len(allexec) == 1 and len(sites) == 1, pfx + ".EXEC-SITES", f"{EV}:ExperimentEvaluator.recompile[exec]",
-                      "exactly one exec/eval site in the package (outside sly), reached from recompile" if len(allexec) == 1 and len(sites) == 1 else
+        from . import liferules as LF0
+        life0 = LF0.lifecycle(ctx)
+        reached = len(sites) == 1 or (not life0["undecided"] and life0["facts"].get("execs") == 1)
+        ctx.rep.check(len(allexec) == 1 and reached, pfx + ".EXEC-SITES", f"{EV}:ExperimentEvaluator.recompile[exec]",
+                      "exactly one exec/eval site in the package (outside sly), reached from recompile" if len(allexec) == 1 and reached else
                       f"{len(allexec)} dynamic-execution sites in the package, {len(sites)} reached from recompile",
                       text=f"{len(allexec)} exec sites")
+    from . import liferules as LF
+    life = LF.lifecycle(ctx)
+    decided = not life["undecided"]
+    if decided and "installed" in facets:
+        LF.decide(ctx, rid, ("switched", "fed"), ok_text="the attribute a call reads holds the function that exec bound, under the experiment's "
+                  "name, from the text generated for THIS call's source (unwrapped); the same holds after the histories A,B,A and A,B,A,B")
+        facets = tuple(f_ for f_ in facets if f_ != "installed")
     if len(sites) != 1:
+        if decided:
+            if "namespace" in facets:
+                for g_ok, l_ok, gtxt, ltype in life["facts"].get("namespaces", []):
+                    ctx.rep.check(l_ok, pfx + ".FRESH-NAMESPACE", f"{EV}:ExperimentEvaluator.recompile[exec locals]",
+                                  "exec locals is a dict created during this call" if l_ok else
+                                  f"exec locals is a {ltype} that outlives the call (compiled names can leak into or come from longer-lived storage)",
+                                  text="exec locals (abstract run)")
+                    ctx.rep.check(g_ok, pfx + ".FRESH-NAMESPACE", f"{EV}:ExperimentEvaluator.recompile[exec globals]",
+                                  "exec globals = the evaluator module's globals (read-only use)" if g_ok else f"exec globals is {gtxt}",
+                                  text="exec globals (abstract run)")
+            return []
         if strict:
             raise AnalysisError("recompile (with the helpers it calls) no longer contains exactly one exec() call")
         ctx.rep.note("exec site idiom not recognised: installed-function facets skipped for this property")
@@ -1918,6 +2003,10 @@ def rule_init_delegates(ctx: Ctx, rid="C11.INIT-DELEGATES"):
 
 
 def rule_none_is_error(ctx: Ctx, rid="C06.NONE-IS-ERROR"):
+    from . import liferules as LF
+    if LF.decide(ctx, rid, ("none", "atomic"), only=lambda con: "returns None" in con,
+                 ok_text="when parse_source returns None recompile raises and has changed nothing"):
+        return
     m, c = _evaluator(ctx)
     rec = m.get_method(c, "recompile")
     paths = flow.enumerate_paths(rec, resolver=resolver_for(m, c))
